@@ -214,3 +214,10 @@ for c in 'per':
 for c in "+-*/^%!<>&|":
     rule(T, 'next', "Some('%s')" % ('[*]' if c == '*' else c), ['post', 'assert'], ['C04'])      # `*` is a glob character
 rule(T, 'next', "Some('@')", ['post', 'assert'], ['C14'])
+
+
+# ---- every refinement obligation of a parser is part of "Ok iff the text is an expression of the grammar" (C03) and of the
+# agreement argument (C15: the five parsers refine spec parsers generated from tables that are equal on shared entries)
+rule(P, '*', '*', VAL, ['C03', 'C15'])
+# ---- C15, first clause as a theorem over the two specifications (unit i64number-agree)
+rule('i64number-agree', '*', '*', ['post', 'assert', 'precond', 'decreases', 'invariant'], ['C15'])
